@@ -68,6 +68,77 @@ func switchMap(fd *eng.FuncDecl) (map[string]string, string) {
 		}
 		return false
 	})
+	if !done {
+		// table form: `return names[f]` on a package-level literal table (array or map) that is only read;
+		// a guarded fallback `return <const>` before or after it is the default
+		ast.Inspect(fd.Decl.Body, func(n ast.Node) bool {
+			ix, ok := n.(*ast.IndexExpr)
+			if !ok || done {
+				return true
+			}
+			id, ok := ix.X.(*ast.Ident)
+			if !ok {
+				return true
+			}
+			obj, ok := info.Uses[id].(*types.Var)
+			if !ok || obj.Pkg() == nil || obj.Parent() != obj.Pkg().Scope() {
+				return true
+			}
+			for _, f := range fd.Pkg.Syntax {
+				for _, d := range f.Decls {
+					gd, ok := d.(*ast.GenDecl)
+					if !ok {
+						continue
+					}
+					for _, sp := range gd.Specs {
+						vs, ok := sp.(*ast.ValueSpec)
+						if !ok {
+							continue
+						}
+						for i, nm := range vs.Names {
+							if info.Defs[nm] != types.Object(obj) || i >= len(vs.Values) {
+								continue
+							}
+							lit, ok := vs.Values[i].(*ast.CompositeLit)
+							if !ok {
+								continue
+							}
+							done = true
+							pos := int64(0)
+							for _, el := range lit.Elts {
+								key := "i:" + fmt.Sprint(pos)
+								val := el
+								if kv, ok := el.(*ast.KeyValueExpr); ok {
+									if k, ok := cv(kv.Key); ok {
+										key = k
+										if strings.HasPrefix(k, "i:") {
+											fmt.Sscan(strings.TrimPrefix(k, "i:"), &pos)
+										}
+									}
+									val = kv.Value
+								}
+								pos++
+								if v, ok := cv(val); ok {
+									out[key] = v
+								}
+							}
+						}
+					}
+				}
+			}
+			return true
+		})
+		if done {
+			ast.Inspect(fd.Decl.Body, func(n ast.Node) bool {
+				if rs, ok := n.(*ast.ReturnStmt); ok && len(rs.Results) >= 1 {
+					if v, ok := cv(rs.Results[0]); ok {
+						def = v
+					}
+				}
+				return true
+			})
+		}
+	}
 	return out, def
 }
 
@@ -349,13 +420,36 @@ func ruleDRMGate(c *eng.Ctx) {
 		okTrue := false
 		for _, r := range eng.Returns(h) {
 			if cst, ok := eng.ReturnValues(r)[0].(*ssa.Const); ok && cst.Value != nil && cst.Value.ExactString() == "true" {
+				// the helpers may have been inlined: then the tests are the suffix / substring tests themselves
 				content := eng.GuardedBy(h, r.Block(), func(f eng.Fact) bool {
 					call, ok := f.Cond.(*ssa.Call)
-					return ok && f.Pos && eng.CalleeName(call) == "epubdoc.isContentFile"
+					if !ok || !f.Pos {
+						return false
+					}
+					if eng.CalleeName(call) == "epubdoc.isContentFile" {
+						return true
+					}
+					if eng.CalleeName(call) == "strings.HasSuffix" {
+						if cs, ok := eng.ConstString(call.Call.Args[1]); ok && drmContentSuffix[cs] {
+							return true
+						}
+					}
+					return false
 				})
 				notObf := eng.GuardedBy(h, r.Block(), func(f eng.Fact) bool {
 					call, ok := f.Cond.(*ssa.Call)
-					return ok && !f.Pos && eng.CalleeName(call) == "epubdoc.isFontObfuscation"
+					if !ok || f.Pos {
+						return false
+					}
+					if eng.CalleeName(call) == "epubdoc.isFontObfuscation" {
+						return true
+					}
+					if eng.CalleeName(call) == "strings.Contains" {
+						if cs, ok := eng.ConstString(call.Call.Args[1]); ok && drmObfuscationWord[cs] {
+							return true
+						}
+					}
+					return false
 				})
 				if content && notObf {
 					okTrue = true
@@ -532,3 +626,6 @@ func reaches(from, to *ssa.BasicBlock) bool {
 	}
 	return eng.ReachableBlocks([]*ssa.BasicBlock{from}, nil)[to]
 }
+
+var drmContentSuffix = map[string]bool{".xhtml": true, ".html": true, ".htm": true, ".xml": true, ".css": true}
+var drmObfuscationWord = map[string]bool{"obfuscation": true, "adobe.com": true, "idpf.org": true}
